@@ -167,6 +167,7 @@ func (f *Func) redefineInputs(opts ...Arg) (reflect.Type, error) {
 			// copy gets its own lock: results memoized while planning must
 			// never be visible to real calls.
 			v.Func.onceMu.Lock()
+			verifPoint("redefine.copy", v.Func)
 			fCopy := *v.Func
 			v.Func.onceMu.Unlock()
 			fCopy.onceMu = new(sync.Mutex)
